@@ -244,6 +244,11 @@ func checkC07(w *World, tier string) *Report {
 	addR73(w, r, "R7.3")
 	addR74(w, r, "R7.4")
 	addR75(w, r, "R7.5")
+	// seventh batch: R7.1 pairs the calls of Tracer.SaveCall/ExitCall; the tree is opened and closed by CallTree.add/exit
+	// behind them, so the two forwarding methods must be unconditional (C08 R8.3) — a flag that makes either return
+	// early, read at different times on entry and exit, unbalances the cursor
+	addR83(w, r, "R8.3")
+	r.Explanation += " R8.3 (shared with C08) Tracer.SaveCall/ExitCall are straight-line forwarders to CallTree.add/exit: the pairing of R7.1 is the pairing of the tree operations."
 	r.Assumptions = append(r.Assumptions, "one goroutine per EVM; exported Tracer.SaveCall/ExitCall are not called by the host")
 	return r
 }
